@@ -1,0 +1,30 @@
+//go:build verif
+
+package pubsub
+
+// Contracts for the deductive checks in /verif (read by /verif/govc; comment-only, no code).
+
+// Dispatch: whatever any query's evaluation returns (match, no match, error), every subscription group is visited, so
+// what one subscriber asked for never decides whether another one is served.
+//@ func state.send
+//@   requires wf: wfSubs(state)
+//@   ensures wf: wfSubs(state)
+//@   ensures all_visited: forall(k, has(state.subscriptions, k) ==> visitedn(1, k))
+//@   loop 1 invariant outer: wfSubs(state)
+//@   loop 2 invariant inner: wfSubs(state)
+
+// Reference counts: for every query string, the query record exists exactly when a subscription group exists, and its
+// reference count is the number of subscriptions in that group (so the record is dropped with the last one).
+//@ spec func wfSubs(state *state) bool = forall(q, (has(state.queries, q) <==> has(state.subscriptions, q)) &&
+//@   | (has(state.queries, q) ==> (state.queries[q] != nil && ref(state.subscriptions[q]) != 0 && state.queries[q].refCount == len(state.subscriptions[q]) && state.queries[q].refCount >= 1))) &&
+//@   | forall(a, forall(b, (a != b && has(state.subscriptions, a) && has(state.subscriptions, b)) ==> (ref(state.subscriptions[a]) != ref(state.subscriptions[b]) && state.queries[a] != state.queries[b])))
+
+//@ func state.add
+//@   requires wf: wfSubs(state) && subscription != nil
+//@   ensures wf: wfSubs(state)
+//@   ensures added: has(state.subscriptions, imethod(q, String)) && has(state.subscriptions[imethod(q, String)], clientID) && state.subscriptions[imethod(q, String)][clientID] == subscription
+
+//@ func state.remove
+//@   requires wf: wfSubs(state)
+//@   ensures wf: wfSubs(state)
+//@   ensures gone: !(has(state.subscriptions, qStr) && has(state.subscriptions[qStr], clientID))
